@@ -9,6 +9,7 @@ import (
 	"path/filepath"
 	"sort"
 	"strings"
+	"sync/atomic"
 	"time"
 
 	"golang.org/x/tools/go/packages"
@@ -101,6 +102,7 @@ func main() {
 	replays := flag.String("replays", "/verif/replays", "directory for replay files")
 	known := flag.String("known", "/verif/known-findings.json", "known findings file")
 	only := flag.String("func", "", "verify only this function key (debugging)")
+	cacheFlag := flag.String("cache", "/verif/.proofcache", "proof cache directory (\"\" or \"off\" disables it)")
 	baseline := flag.String("baseline", "", "git repository whose HEAD is the baseline for local-variable renames (default: -repo)")
 	dump := flag.String("dump", "", "directory to keep SMT queries (debugging)")
 	timeout := flag.Int("timeout", 0, "per-query timeout in seconds (default 10 quick / 60 thorough)")
@@ -120,6 +122,11 @@ func main() {
 	cs, files, err := LoadAllContracts(*specs, *repo)
 	if err != nil {
 		fail("%v", err)
+	}
+	if *cacheFlag != "" && *cacheFlag != "off" && os.Getenv("GOVC_NOCACHE") == "" {
+		if err := os.MkdirAll(*cacheFlag, 0o755); err == nil {
+			cacheDir = *cacheFlag
+		}
 	}
 	g.cs = cs
 	g.inferRenames(*repo, *baseline)
@@ -166,9 +173,11 @@ func main() {
 		vc := g.verifyFunc(fc)
 		funcs = append(funcs, key)
 		for _, o := range vc.obls {
-			if *prop != "" && len(o.Props) > 0 && !hasProp(o.Props, *prop) {
-				continue
-			}
+			// Clause-level tags say which property a clause was written for; they no longer filter. Every
+			// obligation of a function that is in the property's dependency set (its `props`) runs under that
+			// property: seeded changes showed that a change breaking property X is often caught by a clause
+			// written for a neighbouring property Y of the same function.
+			_ = o.Props
 			items = append(items, oblItem{vc, o})
 		}
 		for _, n := range vc.notes {
@@ -271,7 +280,7 @@ func main() {
 	sort.Slice(items, func(i, j int) bool { return items[i].o.Name < items[j].o.Name })
 	for i, it := range items {
 		if i < 400 {
-			samples = append(samples, map[string]any{"name": it.o.Name, "kind": it.o.Kind, "status": it.o.Status, "solver": it.o.Solver, "ms": it.o.Ms, "clause": truncate(it.o.Src, 200)})
+			samples = append(samples, map[string]any{"name": it.o.Name, "kind": it.o.Kind, "status": it.o.Status, "solver": it.o.Solver, "cached": it.o.Cached, "ms": it.o.Ms, "clause": truncate(it.o.Src, 200)})
 		}
 	}
 	for _, l := range knownHit {
@@ -333,7 +342,8 @@ func main() {
 				"samples":                  samples,
 				"functions_under_contract": funcs,
 				"vacuity_covers":           covers, "vacuity_covers_ok": coversOK,
-				"solver_time_s": float64(solverMs) / 1000.0, "solve_wall_s": solveS, "load_s": loadS, "vcgen_s": genS,
+				"solver_time_s": float64(solverMs) / 1000.0, "solve_wall_s": solveS, "proof_cache_hits": atomic.LoadInt64(&cacheHits),
+				"proof_cache": "an obligation whose complete SMT query text (SHA-256) was answered the expected way earlier on this machine is not solved again; only successes are cached, failures are always re-solved; samples[].cached marks them", "load_s": loadS, "vcgen_s": genS,
 				"back_ends":      "z3-new 5.1.0, z3 4.8.12, cvc5 1.0 raced per obligation; census/binding obligations decided statically over go/ssa",
 				"known_findings": knownHit,
 				"engine_notes":   notes,
@@ -349,8 +359,8 @@ func main() {
 			fail("evidence: %v", err)
 		}
 	}
-	fmt.Fprintf(os.Stderr, "govc: %s %s: %d/%d obligations discharged, %d covers ok/%d, %d violations, %d engine errors, %.1fs (load %.1fs gen %.1fs solve %.1fs)\n",
-		pid, *tier, discharged, total, coversOK, covers, len(violations), len(engineErrs), time.Since(t0).Seconds(), loadS, genS, solveS)
+	fmt.Fprintf(os.Stderr, "govc: %s %s: %d/%d obligations discharged, %d covers ok/%d, %d violations, %d engine errors, %.1fs (load %.1fs gen %.1fs solve %.1fs, %d from proof cache)\n",
+		pid, *tier, discharged, total, coversOK, covers, len(violations), len(engineErrs), time.Since(t0).Seconds(), loadS, genS, solveS, atomic.LoadInt64(&cacheHits))
 	if cleanupScratch != "" {
 		os.RemoveAll(cleanupScratch) // os.Exit skips deferred calls
 	}
